@@ -2,17 +2,11 @@
 
 use std::{
     hash::{Hash, Hasher},
-    io::{self, Cursor},
+    io,
     sync::Arc,
 };
 
-use noodles_bam as bam;
-use noodles_bcf as bcf;
-use noodles_bgzf as bgzf;
 use noodles_cram::verif as cv;
-use noodles_csi as csi;
-use noodles_tabix as tabix;
-use noodles_vcf as vcf;
 use vnd::{Api, Doc, Enc, Field, Format, Opts, mutate};
 
 use crate::pool::{Finding, Stages, Verdict};
@@ -305,6 +299,12 @@ impl Plan {
     pub fn new(thorough: bool) -> Self {
         let mut docs: Vec<Doc> = vnd::corpus(thorough);
         docs.extend(vnd::extra(thorough));
+        if !thorough {
+            // layout variants built for the C12/C13 indexed-access checks: same bytes-level structure as documents
+            // already in the plan; thorough only (keeps the quick tier within its budget)
+            const LAYOUT_ONLY: [&str; 4] = ["bam-mapped-split", "bcf-sites-split", "vcfgz-sites-split", "samgz-mapped-split"];
+            docs.retain(|d| !LAYOUT_ONLY.iter().any(|n| d.name == *n || d.index_of.as_deref() == Some(*n)) && !d.name.contains("fastagz-indexed"));
+        }
         // counterpart: an index document points to its data; a data document to the first index built for it
         let others: Vec<Option<Other>> = docs
             .iter()
